@@ -271,7 +271,7 @@ func randValue(r *rand.Rand, depth int) *V {
 		}
 		m := obj()
 		for i := r.Intn(4); i > 0; i-- {
-			m.Mem = append(m.Mem, kv([]string{"a", "b", "type", "coordinates", "k k", "radius"}[r.Intn(6)], randValue(r, depth+1)))
+			m.Mem = append(m.Mem, kv([]string{"a", "b", "type", "coordinates", "k k", "radius", "properties", "geometry", "id", "bbox"}[r.Intn(10)], randValue(r, depth+1)))
 		}
 		return m
 	}
